@@ -48,9 +48,20 @@ def check_response(label, res, api, package_dir, target_files, services, failure
     if outside:
         failures.append(dict(label, what="python sources outside the package-derived directory", names=outside[:5], expected_prefix=package_dir))
     types = sorted(n for n in names if n.startswith(package_dir + "/types/") and not n.endswith("/__init__.py"))
-    want_types = sorted(f"{package_dir}/types/{types_module_spec(t)}.py" for t in target_files)
-    if types != want_types:
-        failures.append(dict(label, what="types modules != one per target proto file", got=types, want=want_types))
+    # one module per target file; two files whose sanitised names coincide are told apart by trailing underscores
+    specs = sorted(types_module_spec(t) for t in target_files)
+    got_stems = sorted(t.rsplit("/", 1)[1][:-3] for t in types)
+    ok = len(types) == len(target_files) and len(set(types)) == len(types)
+    if ok:
+        pool_ = list(specs)
+        for stem in got_stems:
+            base = next((x for x in pool_ if stem == x or (stem.startswith(x) and set(stem[len(x):]) <= {"_"})), None)
+            if base is None:
+                ok = False
+                break
+            pool_.remove(base)
+    if not ok:
+        failures.append(dict(label, what="types modules != one per target proto file", got=types, want=[f"{package_dir}/types/{x}.py" for x in specs]))
     for s in services:
         if f"{package_dir}/services/{s}/client.py" not in names:
             failures.append(dict(label, what="service package missing", service=s))
@@ -82,7 +93,7 @@ def scenarios():
     grid = [("acme.lab.v1", "acme/lab_v1"), ("acme.cloud.lab.v1beta1", "acme/cloud/lab_v1beta1"), ("a.b.c.lab.v1p1beta1", "a/b/c/lab_v1p1beta1"),
             ("acme.lab", "acme/lab"), ("acme.lab.v2alpha", "acme/lab_v2alpha")]
     for package, pdir in grid:
-        for files in (("things.proto",), ("things.proto", "more_things.proto", "OddName.v2.proto", "import.proto", "retry.proto")):
+        for files in (("things.proto",), ("things.proto", "more_things.proto", "OddName.v2.proto", "import.proto", "retry.proto", "metrics_core.proto", "metrics.core.proto")):
             cases += 1
             label = {"package": package, "files": list(files)}
             try:
